@@ -110,11 +110,11 @@ class HashTable:
 
     def __getitem__(self, keys):
         if isinstance(self._values, Number):
-            return (
-                self._values
-                if isinstance(keys, Number)
-                else np.full(len(keys), self._values, dtype=self._value_dtype)
-            )
+            if isinstance(keys, Number):
+                return self._values
+            if self._safe_mode:
+                self._get_indices(keys)
+            return np.full(len(keys), self._values, dtype=self._value_dtype)
         return self._values[self._get_indices(keys)]
 
     def _fill_values(self):
